@@ -29,6 +29,7 @@ Qed.
 
 (* ---- symbolic execution tactics ---------------------------------------------------------------------- *)
 Ltac wnorm := repeat (progress (cbn; unfold run_body, set_ws, lift_res, await_val, after_fmt, fmt_item)).
+(* (fmt_name stays folded: see fmt_name_ok) *)
 
 Ltac rw_mode := repeat match goal with
   | H : c_mode _ = _ |- _ => progress rewrite !H
@@ -52,8 +53,21 @@ Proof.
   intros Sigma cx H. induction l as [|v l IH]; intros s; [reflexivity|].
   cbn [fmt_vals]. destruct (H v s) as [r E]. rewrite E. apply IH.
 Qed.
+(* reading the name of a callable whose name can be shown *)
+Lemma fmt_name_ok : forall Sigma (cx : ctx Sigma) c, name_readable cx c -> forall s, fmt_name cx c s = (FmOk, s).
+Proof.
+  intros Sigma cx c [H|H] s; unfold fmt_name.
+  - now rewrite H.
+  - destruct (c_named (cx_callee cx c)); [reflexivity|]. cbn [fmt_vals]. destruct (H s) as [r E]. now rewrite E.
+Qed.
+
+Lemma repr_harmless_name : forall Sigma (cx : ctx Sigma) c, repr_harmless cx -> name_readable cx c.
+Proof. intros Sigma cx c H. right. intros s. apply H. Qed.
+
 Local Arguments fmt_vals : simpl never.
+Local Arguments fmt_name : simpl never.
 Ltac fmt_ok H := progress rewrite ?(fmt_vals_ok _ _ H).
+Ltac name_ok := progress repeat match goal with H : name_readable _ _ |- _ => progress rewrite !(fmt_name_ok _ _ _ H) end.
 
 (* ---- what a call of the callee does, from behaves_as ------------------------------------------------------ *)
 Section Calls.
@@ -240,9 +254,10 @@ Section Levels.
   Hypothesis Hwu : awaited_if_coro (cx_callee cx CFunc) = true.
   Hypothesis Hf : behaves_as g (cx_callee cx CFunc).
   Hypothesis Hrepr : repr_harmless cx.
-  Hypothesis Hname : c_named (cx_callee cx CFunc) = true.
+  Hypothesis Hname : name_readable cx CFunc.
+  Hypothesis Hfun : c_named (cx_callee cx CFunc) = true.        (* require_kwargs only: a function object *)
 
-  Ltac sym := repeat first [progress wnorm | progress rw_mode | fmt_ok Hrepr | call_full Hf | call_phase Hf | dif | dgv g].
+  Ltac sym := repeat first [progress wnorm | progress rw_mode | fmt_ok Hrepr | name_ok | call_full Hf | call_phase Hf | dif | dgv g].
   (* the three situations: coroutine function + async wrapper; coroutine mode + sync wrapper; plain function *)
   Ltac sync_coro := intros ?a ?k [?c0 ?w0]; sym; try discriminate; fin.
   Ltac plain := intros ?a ?k [?c0 ?w0]; sym; eauto.
@@ -305,12 +320,12 @@ Section Levels.
       by (apply call_plain; assumption).
     enter Hwu; try discriminate Hp.
     - async_variant.
-      repeat first [progress wnorm | progress rw_mode | fmt_ok Hrepr | call_full Hf
+      repeat first [progress wnorm | progress rw_mode | fmt_ok Hrepr | name_ok | call_full Hf
                    | match goal with |- context [do_call cx COther ?a ?k false ?s1] =>
                        let w := fresh "w" in let E := fresh "E" in destruct (Hcall a k s1) as [w E]; rewrite E; clear E end
                    | dif | dgv g | dgv go]; eauto.
     - intros ?a ?k [?c0 ?w0].
-      repeat first [progress wnorm | progress rw_mode | fmt_ok Hrepr | call_full Hf
+      repeat first [progress wnorm | progress rw_mode | fmt_ok Hrepr | name_ok | call_full Hf
                    | match goal with |- context [do_call cx COther ?a ?k false ?s1] =>
                        let w := fresh "w" in let E := fresh "E" in destruct (Hcall a k s1) as [w E]; rewrite E; clear E end
                    | dif | dgv g | dgv go]; eauto.
@@ -326,7 +341,7 @@ Section Levels.
     intros go Hif Hio Hmo Hcall. unfold spec_apply, spec_does_same.
     enter Hwu; try discriminate Hif.
     async_variant.
-    repeat first [progress wnorm | progress rw_mode | fmt_ok Hrepr | call_full Hf
+    repeat first [progress wnorm | progress rw_mode | fmt_ok Hrepr | name_ok | call_full Hf
                  | match goal with |- context [do_call cx COther ?a ?k true ?s1] =>
                      let w := fresh "w" in let E := fresh "E" in destruct (Hcall a k s1) as [w E]; rewrite E; clear E end
                  | dif | dgv g | dgv go]; eauto.
